@@ -138,14 +138,6 @@ pub struct StepOut {
 pub struct Trace {
     pub steps: Vec<StepOut>,
     pub harness_errors: Vec<String>,
-    /// steps whose child ran into the watchdog although the harness schedules nothing in it (a run of
-    /// the real program, or a session of plain opens and questions without injected faults)
-    #[serde(default)]
-    pub hang_steps: Vec<usize>,
-    /// the same steps hung in two executions of the history: that is the code under test, and a
-    /// verdict (`<property>.hangs`), not a harness problem
-    #[serde(default)]
-    pub hangs_confirmed: bool,
 }
 
 #[derive(Serialize, Deserialize, Clone, Debug, PartialEq, Eq)]
@@ -259,42 +251,7 @@ pub fn freeze_rand(h: &mut History) {
     }
 }
 
-/// Execute a history. A watchdog in a child the harness schedules nothing in is checked by executing
-/// the history a second time: if the same steps hang again, the hang is the code's (see `Trace`).
 pub fn run_history(ctx: &Ctx, h: &History, work: &Path, rotate: usize) -> Trace {
-    let first = run_history_once(ctx, h, work, rotate);
-    if first.hang_steps.is_empty() || first.hang_steps.len() != first.harness_errors.len() {
-        return first;
-    }
-    let mut second = run_history_once(ctx, h, work, rotate);
-    if second.hang_steps == first.hang_steps && second.hang_steps.len() == second.harness_errors.len() {
-        second.harness_errors.clear();
-        second.hangs_confirmed = true;
-    }
-    second
-}
-
-fn plain_session(s: &Session) -> bool {
-    s.faults.is_empty() && s.ops.iter().all(|o| matches!(o, Op::Open { plan, .. } if *plan == Plan::default()) || matches!(o, Op::Ask { .. } | Op::Drop { .. }))
-}
-
-fn judge_hangs(prop: &str, trace: &Trace, out: &mut Vec<Violation>) {
-    if !trace.hangs_confirmed {
-        return;
-    }
-    for &i in &trace.hang_steps {
-        out.push(Violation {
-            property: prop.to_string(),
-            clause: format!("{prop}.hangs"),
-            step: i,
-            detail: format!("step {i} (nothing injected, nothing scheduled by the harness) did not finish within the watchdog in two executions of the history"),
-            focus: vec![],
-            signature: format!("{prop}.hangs"),
-        });
-    }
-}
-
-fn run_history_once(ctx: &Ctx, h: &History, work: &Path, rotate: usize) -> Trace {
     let mut trace = Trace::default();
     let _ = std::fs::remove_dir_all(work);
     if let Err(e) = std::fs::create_dir_all(work) {
@@ -419,9 +376,6 @@ fn run_history_once(ctx: &Ctx, h: &History, work: &Path, rotate: usize) -> Trace
                 };
                 if let Some(e) = out.harness_error() {
                     trace.harness_errors.push(format!("step {i}: {e}"));
-                    if out.exit == Exit::TimedOut && hold_ms.is_none() && disk_limited.is_none() && plain_session(&s) {
-                        trace.hang_steps.push(i);
-                    }
                 }
                 if let Some(limit) = &disk_limited {
                     // the full disk "fired" when this start could not do what it set out to do
@@ -451,9 +405,6 @@ fn run_history_once(ctx: &Ctx, h: &History, work: &Path, rotate: usize) -> Trace
                 let out = if *tty && inject.is_none() { ctx.launcher.any_on(&xdg, work, &args, env, step_rand(h, i), true) } else { ctx.launcher.any(&xdg, work, &args, env, inject.as_ref(), step_rand(h, i)) };
                 if let Some(e) = out.harness_error() {
                     trace.harness_errors.push(format!("step {i}: {e}"));
-                    if out.exit == Exit::TimedOut && inject.is_none() {
-                        trace.hang_steps.push(i);
-                    }
                 }
                 Some(out)
             }
@@ -1207,12 +1158,6 @@ pub fn judge_c19(ctx: &Ctx, h: &History, trace: &Trace) -> Vec<Violation> {
 }
 
 pub fn judge(ctx: &Ctx, h: &History, trace: &Trace) -> Vec<Violation> {
-    if trace.hangs_confirmed {
-        // what a hung process left behind is not judged further
-        let mut out = Vec::new();
-        judge_hangs(&h.property, trace, &mut out);
-        return out;
-    }
     match h.property.as_str() {
         "C14" => judge_c14(ctx, h, trace),
         "C15" => judge_c15(ctx, h, trace),
